@@ -362,6 +362,9 @@ func (c *Ctx) ruleDepCalls(rule string) {
 						}
 					}
 				}
+				if !inOnce && c.onlyOnceDoArg(f) {
+					inOnce = true // the method is only ever handed to Once.Do as a method value
+				}
 				if inOnce {
 					r.Ok(rule, key, "stateful dependency call memoised by sync.Once", where)
 				} else if freshRegexReceiver(f, call) {
@@ -773,4 +776,53 @@ func freshRegexReceiver(f *Fn, call *ast.CallExpr) bool {
 	}
 	g := callee(f.Pkg, mk)
 	return g != nil && g.Pkg() != nil && strings.HasSuffix(g.Pkg().Path(), "notations/regex") && (g.Name() == "FromFile" || g.Name() == "New")
+}
+
+// onlyOnceDoArg: f is a declared function or method whose every use in the library is as the (only) argument of a
+// (*sync.Once).Do call - a method value handed to Do runs exactly like a closure handed to Do.
+func (c *Ctx) onlyOnceDoArg(f *Fn) bool {
+	uses, ok := 0, true
+	for _, g := range c.libFns() {
+		var stack []ast.Node
+		ast.Inspect(g.Decl.Body, func(nd ast.Node) bool {
+			if nd == nil {
+				stack = stack[:len(stack)-1]
+				return true
+			}
+			stack = append(stack, nd)
+			var id *ast.Ident
+			switch x := nd.(type) {
+			case *ast.SelectorExpr:
+				id = x.Sel
+			case *ast.Ident:
+				id = x
+			}
+			if id == nil {
+				return true
+			}
+			if o, _ := g.Pkg.TypesInfo.Uses[id].(*types.Func); o == nil || o.Origin() != f.Obj.Origin() {
+				return true
+			}
+			if _, isSel := nd.(*ast.Ident); isSel && len(stack) >= 2 {
+				if sel, ok := stack[len(stack)-2].(*ast.SelectorExpr); ok && sel.Sel == id {
+					return true // counted at the selector
+				}
+			}
+			uses++
+			// the parent must be a call of sync.Once.Do with this expression as its argument
+			good := false
+			if len(stack) >= 2 {
+				if oc, isCall := stack[len(stack)-2].(*ast.CallExpr); isCall && len(oc.Args) == 1 && ast.Unparen(oc.Args[0]) == nd.(ast.Expr) {
+					if m := callee(g.Pkg, oc); m != nil && m.Name() == "Do" && m.Pkg() != nil && m.Pkg().Path() == "sync" {
+						good = true
+					}
+				}
+			}
+			if !good {
+				ok = false
+			}
+			return true
+		})
+	}
+	return ok && uses > 0
 }
